@@ -742,116 +742,149 @@ let vmodel_parts attr_value is_component argument splitted =
 
 (** val is_assignable : node -> bool **)
 
-let is_assignable v = match v with
-| NObj _ ->
+let rec is_assignable v = match v with
+| NObj fs ->
   let t = ntype v in
-  (||)
-    ((||)
-      ((||)
-        ((||)
-          (sq (String ((Ascii (true, true, false, false, true, false, true,
-            false)), (String ((Ascii (true, false, true, false, true, true,
-            true, false)), (String ((Ascii (false, false, false, false, true,
-            true, true, false)), (String ((Ascii (true, false, true, false,
-            false, true, true, false)), (String ((Ascii (false, true, false,
-            false, true, true, true, false)), (String ((Ascii (false, false,
-            false, false, true, false, true, false)), (String ((Ascii (false,
-            true, false, false, true, true, true, false)), (String ((Ascii
-            (true, true, true, true, false, true, true, false)), (String
-            ((Ascii (false, false, false, false, true, true, true, false)),
-            (String ((Ascii (true, false, true, false, false, false, true,
-            false)), (String ((Ascii (false, false, false, true, true, true,
-            true, false)), (String ((Ascii (false, false, false, false, true,
-            true, true, false)), (String ((Ascii (false, true, false, false,
-            true, true, true, false)), (String ((Ascii (true, false, true,
-            false, false, true, true, false)), (String ((Ascii (true, true,
-            false, false, true, true, true, false)), (String ((Ascii (true,
-            true, false, false, true, true, true, false)), (String ((Ascii
-            (true, false, false, true, false, true, true, false)), (String
-            ((Ascii (true, true, true, true, false, true, true, false)),
-            (String ((Ascii (false, true, true, true, false, true, true,
-            false)), EmptyString)))))))))))))))))))))))))))))))))))))) t)
-          (sq (String ((Ascii (false, false, true, false, true, false, true,
-            false)), (String ((Ascii (true, true, false, false, true, true,
-            true, false)), (String ((Ascii (true, false, false, false, false,
-            false, true, false)), (String ((Ascii (true, true, false, false,
-            true, true, true, false)), (String ((Ascii (true, false, true,
-            false, false, false, true, false)), (String ((Ascii (false,
-            false, false, true, true, true, true, false)), (String ((Ascii
-            (false, false, false, false, true, true, true, false)), (String
-            ((Ascii (false, true, false, false, true, true, true, false)),
-            (String ((Ascii (true, false, true, false, false, true, true,
-            false)), (String ((Ascii (true, true, false, false, true, true,
-            true, false)), (String ((Ascii (true, true, false, false, true,
-            true, true, false)), (String ((Ascii (true, false, false, true,
-            false, true, true, false)), (String ((Ascii (true, true, true,
-            true, false, true, true, false)), (String ((Ascii (false, true,
-            true, true, false, true, true, false)),
-            EmptyString)))))))))))))))))))))))))))) t))
-        (sq (String ((Ascii (false, false, true, false, true, false, true,
-          false)), (String ((Ascii (true, true, false, false, true, true,
-          true, false)), (String ((Ascii (false, true, true, true, false,
-          false, true, false)), (String ((Ascii (true, true, true, true,
-          false, true, true, false)), (String ((Ascii (false, true, true,
-          true, false, true, true, false)), (String ((Ascii (false, true,
-          true, true, false, false, true, false)), (String ((Ascii (true,
-          false, true, false, true, true, true, false)), (String ((Ascii
-          (false, false, true, true, false, true, true, false)), (String
-          ((Ascii (false, false, true, true, false, true, true, false)),
-          (String ((Ascii (true, false, true, false, false, false, true,
-          false)), (String ((Ascii (false, false, false, true, true, true,
-          true, false)), (String ((Ascii (false, false, false, false, true,
-          true, true, false)), (String ((Ascii (false, true, false, false,
-          true, true, true, false)), (String ((Ascii (true, false, true,
-          false, false, true, true, false)), (String ((Ascii (true, true,
-          false, false, true, true, true, false)), (String ((Ascii (true,
-          true, false, false, true, true, true, false)), (String ((Ascii
-          (true, false, false, true, false, true, true, false)), (String
-          ((Ascii (true, true, true, true, false, true, true, false)),
-          (String ((Ascii (false, true, true, true, false, true, true,
-          false)), EmptyString)))))))))))))))))))))))))))))))))))))) t))
-      (sq (String ((Ascii (false, false, true, false, true, false, true,
-        false)), (String ((Ascii (true, true, false, false, true, true, true,
-        false)), (String ((Ascii (true, true, false, false, true, false,
-        true, false)), (String ((Ascii (true, false, false, false, false,
-        true, true, false)), (String ((Ascii (false, false, true, false,
-        true, true, true, false)), (String ((Ascii (true, false, false, true,
-        false, true, true, false)), (String ((Ascii (true, true, false,
-        false, true, true, true, false)), (String ((Ascii (false, true, true,
-        false, false, true, true, false)), (String ((Ascii (true, false,
-        false, true, false, true, true, false)), (String ((Ascii (true,
-        false, true, false, false, true, true, false)), (String ((Ascii
-        (true, true, false, false, true, true, true, false)), (String ((Ascii
-        (true, false, true, false, false, false, true, false)), (String
-        ((Ascii (false, false, false, true, true, true, true, false)),
-        (String ((Ascii (false, false, false, false, true, true, true,
-        false)), (String ((Ascii (false, true, false, false, true, true,
-        true, false)), (String ((Ascii (true, false, true, false, false,
-        true, true, false)), (String ((Ascii (true, true, false, false, true,
-        true, true, false)), (String ((Ascii (true, true, false, false, true,
-        true, true, false)), (String ((Ascii (true, false, false, true,
-        false, true, true, false)), (String ((Ascii (true, true, true, true,
-        false, true, true, false)), (String ((Ascii (false, true, true, true,
-        false, true, true, false)),
-        EmptyString)))))))))))))))))))))))))))))))))))))))))) t))
-    (sq (String ((Ascii (false, false, true, false, true, false, true,
-      false)), (String ((Ascii (true, true, false, false, true, true, true,
-      false)), (String ((Ascii (false, false, true, false, true, false, true,
-      false)), (String ((Ascii (true, false, false, true, true, true, true,
-      false)), (String ((Ascii (false, false, false, false, true, true, true,
-      false)), (String ((Ascii (true, false, true, false, false, true, true,
-      false)), (String ((Ascii (true, false, false, false, false, false,
-      true, false)), (String ((Ascii (true, true, false, false, true, true,
-      true, false)), (String ((Ascii (true, true, false, false, true, true,
-      true, false)), (String ((Ascii (true, false, true, false, false, true,
-      true, false)), (String ((Ascii (false, true, false, false, true, true,
-      true, false)), (String ((Ascii (false, false, true, false, true, true,
-      true, false)), (String ((Ascii (true, false, false, true, false, true,
-      true, false)), (String ((Ascii (true, true, true, true, false, true,
-      true, false)), (String ((Ascii (false, true, true, true, false, true,
-      true, false)), EmptyString)))))))))))))))))))))))))))))) t)
+  if sq (String ((Ascii (true, true, false, false, true, false, true,
+       false)), (String ((Ascii (true, false, true, false, true, true, true,
+       false)), (String ((Ascii (false, false, false, false, true, true,
+       true, false)), (String ((Ascii (true, false, true, false, false, true,
+       true, false)), (String ((Ascii (false, true, false, false, true, true,
+       true, false)), (String ((Ascii (false, false, false, false, true,
+       false, true, false)), (String ((Ascii (false, true, false, false,
+       true, true, true, false)), (String ((Ascii (true, true, true, true,
+       false, true, true, false)), (String ((Ascii (false, false, false,
+       false, true, true, true, false)), (String ((Ascii (true, false, true,
+       false, false, false, true, false)), (String ((Ascii (false, false,
+       false, true, true, true, true, false)), (String ((Ascii (false, false,
+       false, false, true, true, true, false)), (String ((Ascii (false, true,
+       false, false, true, true, true, false)), (String ((Ascii (true, false,
+       true, false, false, true, true, false)), (String ((Ascii (true, true,
+       false, false, true, true, true, false)), (String ((Ascii (true, true,
+       false, false, true, true, true, false)), (String ((Ascii (true, false,
+       false, true, false, true, true, false)), (String ((Ascii (true, true,
+       true, true, false, true, true, false)), (String ((Ascii (false, true,
+       true, true, false, true, true, false)),
+       EmptyString)))))))))))))))))))))))))))))))))))))) t
+  then true
+  else if (||)
+            ((||)
+              ((||)
+                (sq (String ((Ascii (false, false, true, false, true, false,
+                  true, false)), (String ((Ascii (true, true, false, false,
+                  true, true, true, false)), (String ((Ascii (true, false,
+                  false, false, false, false, true, false)), (String ((Ascii
+                  (true, true, false, false, true, true, true, false)),
+                  (String ((Ascii (true, false, true, false, false, false,
+                  true, false)), (String ((Ascii (false, false, false, true,
+                  true, true, true, false)), (String ((Ascii (false, false,
+                  false, false, true, true, true, false)), (String ((Ascii
+                  (false, true, false, false, true, true, true, false)),
+                  (String ((Ascii (true, false, true, false, false, true,
+                  true, false)), (String ((Ascii (true, true, false, false,
+                  true, true, true, false)), (String ((Ascii (true, true,
+                  false, false, true, true, true, false)), (String ((Ascii
+                  (true, false, false, true, false, true, true, false)),
+                  (String ((Ascii (true, true, true, true, false, true, true,
+                  false)), (String ((Ascii (false, true, true, true, false,
+                  true, true, false)),
+                  EmptyString)))))))))))))))))))))))))))) t)
+                (sq (String ((Ascii (false, false, true, false, true, false,
+                  true, false)), (String ((Ascii (true, true, false, false,
+                  true, true, true, false)), (String ((Ascii (false, true,
+                  true, true, false, false, true, false)), (String ((Ascii
+                  (true, true, true, true, false, true, true, false)),
+                  (String ((Ascii (false, true, true, true, false, true,
+                  true, false)), (String ((Ascii (false, true, true, true,
+                  false, false, true, false)), (String ((Ascii (true, false,
+                  true, false, true, true, true, false)), (String ((Ascii
+                  (false, false, true, true, false, true, true, false)),
+                  (String ((Ascii (false, false, true, true, false, true,
+                  true, false)), (String ((Ascii (true, false, true, false,
+                  false, false, true, false)), (String ((Ascii (false, false,
+                  false, true, true, true, true, false)), (String ((Ascii
+                  (false, false, false, false, true, true, true, false)),
+                  (String ((Ascii (false, true, false, false, true, true,
+                  true, false)), (String ((Ascii (true, false, true, false,
+                  false, true, true, false)), (String ((Ascii (true, true,
+                  false, false, true, true, true, false)), (String ((Ascii
+                  (true, true, false, false, true, true, true, false)),
+                  (String ((Ascii (true, false, false, true, false, true,
+                  true, false)), (String ((Ascii (true, true, true, true,
+                  false, true, true, false)), (String ((Ascii (false, true,
+                  true, true, false, true, true, false)),
+                  EmptyString)))))))))))))))))))))))))))))))))))))) t))
+              (sq (String ((Ascii (false, false, true, false, true, false,
+                true, false)), (String ((Ascii (true, true, false, false,
+                true, true, true, false)), (String ((Ascii (true, true,
+                false, false, true, false, true, false)), (String ((Ascii
+                (true, false, false, false, false, true, true, false)),
+                (String ((Ascii (false, false, true, false, true, true, true,
+                false)), (String ((Ascii (true, false, false, true, false,
+                true, true, false)), (String ((Ascii (true, true, false,
+                false, true, true, true, false)), (String ((Ascii (false,
+                true, true, false, false, true, true, false)), (String
+                ((Ascii (true, false, false, true, false, true, true,
+                false)), (String ((Ascii (true, false, true, false, false,
+                true, true, false)), (String ((Ascii (true, true, false,
+                false, true, true, true, false)), (String ((Ascii (true,
+                false, true, false, false, false, true, false)), (String
+                ((Ascii (false, false, false, true, true, true, true,
+                false)), (String ((Ascii (false, false, false, false, true,
+                true, true, false)), (String ((Ascii (false, true, false,
+                false, true, true, true, false)), (String ((Ascii (true,
+                false, true, false, false, true, true, false)), (String
+                ((Ascii (true, true, false, false, true, true, true, false)),
+                (String ((Ascii (true, true, false, false, true, true, true,
+                false)), (String ((Ascii (true, false, false, true, false,
+                true, true, false)), (String ((Ascii (true, true, true, true,
+                false, true, true, false)), (String ((Ascii (false, true,
+                true, true, false, true, true, false)),
+                EmptyString)))))))))))))))))))))))))))))))))))))))))) t))
+            (sq (String ((Ascii (false, false, true, false, true, false,
+              true, false)), (String ((Ascii (true, true, false, false, true,
+              true, true, false)), (String ((Ascii (false, false, true,
+              false, true, false, true, false)), (String ((Ascii (true,
+              false, false, true, true, true, true, false)), (String ((Ascii
+              (false, false, false, false, true, true, true, false)), (String
+              ((Ascii (true, false, true, false, false, true, true, false)),
+              (String ((Ascii (true, false, false, false, false, false, true,
+              false)), (String ((Ascii (true, true, false, false, true, true,
+              true, false)), (String ((Ascii (true, true, false, false, true,
+              true, true, false)), (String ((Ascii (true, false, true, false,
+              false, true, true, false)), (String ((Ascii (false, true,
+              false, false, true, true, true, false)), (String ((Ascii
+              (false, false, true, false, true, true, true, false)), (String
+              ((Ascii (true, false, false, true, false, true, true, false)),
+              (String ((Ascii (true, true, true, true, false, true, true,
+              false)), (String ((Ascii (false, true, true, true, false, true,
+              true, false)), EmptyString)))))))))))))))))))))))))))))) t)
+       then let rec find = function
+            | [] -> false
+            | n :: r ->
+              (match n with
+               | Field (k, e) ->
+                 if sq (String ((Ascii (true, false, true, false, false,
+                      true, true, false)), (String ((Ascii (false, false,
+                      false, true, true, true, true, false)), (String ((Ascii
+                      (false, false, false, false, true, true, true, false)),
+                      (String ((Ascii (false, true, false, false, true, true,
+                      true, false)), (String ((Ascii (true, false, true,
+                      false, false, true, true, false)), (String ((Ascii
+                      (true, true, false, false, true, true, true, false)),
+                      (String ((Ascii (true, true, false, false, true, true,
+                      true, false)), (String ((Ascii (true, false, false,
+                      true, false, true, true, false)), (String ((Ascii
+                      (true, true, true, true, false, true, true, false)),
+                      (String ((Ascii (false, true, true, true, false, true,
+                      true, false)), EmptyString)))))))))))))))))))) k
+                 then is_assignable e
+                 else find r
+               | _ -> find r)
+            in find fs
+       else false
 | Ident (_, _, _) -> true
-| Paren _ -> true
+| Paren e -> is_assignable e
 | Member (_, _) -> true
 | _ -> false
 
